@@ -107,6 +107,52 @@ def dict_helpers(tier):
     return out[:5], cases
 
 
+def reconstrain_cases():
+    """ShapedTensor.reconstrain on real storage: an accepted add/remove changes exactly that constraint, a refused one
+    (size incompatible with the data, or removal of an unconstrained dim) leaves constraints, data and validity as they
+    were, and the right constraint can still be added afterwards"""
+    from inferno.core.infrastructure import ShapedTensor
+
+    fails, n = [], 0
+    for shape in ((3, 4), (2, 3, 4), (5,)):
+        for kind in ("buffer", "parameter"):
+            for strict in (True, False):
+                for dim in range(-len(shape), len(shape)):
+                    for wrong in (shape[dim] + 1, 0 if shape[dim] != 0 else 1):
+                        n += 1
+                        m = Module()
+                        data = torch.rand(*shape)
+                        st = ShapedTensor(m, "x", torch.nn.Parameter(data, False) if kind == "parameter" else data, None, strict=strict)
+                        before_c, before_v = dict(st.constraints), st.valid
+                        val0 = st.value.clone()
+                        raised = None
+                        try:
+                            st.reconstrain(dim, wrong)
+                        except Exception as e:  # noqa: BLE001
+                            raised = type(e).__name__
+                        inp = dict(shape=list(shape), storage=kind, dim=dim, refused_size=wrong)
+                        if raised is None:
+                            # an accepted incompatible constraint must at least be reported invalid
+                            if st.valid:
+                                fails.append({"what": "C13/reconstrain/incompatible_add_accepted_and_valid", "input": inp, "expected": "ValueError or invalid", "actual": "accepted"})
+                            continue
+                        if dict(st.constraints) != before_c or st.valid != before_v or not torch.equal(st.value, val0):
+                            fails.append({"what": "C13/reconstrain/refused_add_has_side_effects", "input": inp, "expected": {"constraints": {str(k): v for k, v in before_c.items()}, "valid": before_v}, "actual": {"constraints": {str(k): v for k, v in dict(st.constraints).items()}, "valid": st.valid}})
+                            continue
+                        try:
+                            st.reconstrain(dim, shape[dim])
+                            ok = st.valid and dict(st.constraints) == {**before_c, dim: shape[dim]}
+                        except Exception as e:  # noqa: BLE001
+                            ok = False
+                        if not ok:
+                            fails.append({"what": "C13/reconstrain/right_constraint_after_refusal", "input": inp, "expected": "accepted", "actual": "refused or wrong bookkeeping"})
+    uniq = []
+    for f in fails:
+        if not any(x["what"] == f["what"] for x in uniq):
+            uniq.append(f)
+    return uniq, n
+
+
 def sweep(tier="quick", seed=0, unsupported=()):
     failures, cases = [], 0
     cfgs = [(1.0, 0.0, False), (1.0, 0.0, True), (1.0, 3.0, True), (0.5, 2.0, False), (0.3, 1.0, True), (1.3, 2.6, False), (0.1, 0.3, True), (2.0, 5.0, True)]
@@ -125,7 +171,12 @@ def sweep(tier="quick", seed=0, unsupported=()):
     for f in f2:
         if not any(x["what"] == f["what"] for x in failures):
             failures.append(f)
+    f3, n3 = reconstrain_cases()
+    for f in f3:
+        if not any(x["what"] == f["what"] for x in failures):
+            failures.append(f)
     return {"standins": [
+        {"function": "ShapedTensor.reconstrain on real storage: refused adds leave constraints / data / validity untouched and the right constraint is still accepted", "domain": "3 shapes x every dim (positive and negative) x 2 incompatible sizes", "cases": n3, "proved": False, "label": "bounded"},
         {"function": "RecordTensor dt/duration/inclusive setters vs list model (size formula, newest observations kept, zero fill, uninitialised storage)", "domain": f"{len(cfgs)}^2 before/after (dt,duration,inclusive) pairs incl. non-representable ratios x none/empty/buffer/parameter storage x fill levels x 5 setter orders", "cases": cases, "proved": False, "label": "bounded"},
         {"function": "_constraint_dimensionality / _constraints_compatible / _constraints_consistent", "domain": "dicts of size <= 2 (3 thorough), dims in [-3,2], sizes in [0,2], ndim <= 4: exhaustive", "cases": n2, "proved": False, "label": "bounded", "exhaustive": True}],
         "failures": failures}
@@ -155,5 +206,9 @@ def replay_native(rp):
     if "cfg0" in i:
         f = resize_case(tuple(i["cfg0"]), tuple(i["cfg1"]), i["fill"], i["storage"], tuple(i["order"]))
         return {"reproduced": f is not None, "failure": f}
+    if str(rp.get("what", "")).startswith("C13/reconstrain"):
+        f, _ = reconstrain_cases()
+        f = [x for x in f if x["what"] == rp.get("what")]
+        return {"reproduced": bool(f), "failure": f[0] if f else None}
     f, _ = dict_helpers("quick")
     return {"reproduced": bool(f), "failure": f[0] if f else None}
